@@ -185,6 +185,58 @@ def neighbourhood(seed, cases, rounds):
 
 EXTRA_MODULES = {"C09": ["TB.Props.C09cost"]}
 
+def scale_cases(tier):
+    """C09 promptness on WIDE inputs (the depth family is in total_stream): documents of 0.2-2 MB (thorough: four times
+    that) whose cost would explode under any super-linear step — many dictionary keys, many list items, many files, many
+    pieces, one very long string, very long digit runs. The verdict of each is known by construction; the model is not
+    run on them (its `List.length`-based bounds test is itself quadratic on many-strings inputs), the cost theorem
+    C09_decode_cost_linear speaks for the model and this stage for the implementation: each must answer within the
+    budget, which linear-time code meets by two orders of magnitude."""
+    k = 1 if tier == "quick" else 4
+    key = lambda i: b"k%07d" % i
+    def files_doc(n):
+        files = b"".join(b"d6:lengthi1e4:pathl1:d8:f%07dee" % i for i in range(n))
+        return b"d4:infod5:filesl" + files + b"e4:name1:t12:piece lengthi1048576e6:pieces%d:" % (20 * ((n + 1048575) // 1048576)) + bytes(20 * ((n + 1048575) // 1048576)) + b"ee"
+    def wide_dict(n, inside_info):
+        ents = b"".join(b"8:%s0:" % key(i) for i in range(n))
+        if inside_info:   # unknown keys of the info dictionary sorted before `length`
+            return b"d4:infod1:ad" + ents + b"e6:lengthi1e4:name1:t12:piece lengthi4e6:pieces20:" + bytes(20) + b"ee"
+        return b"d1:ad" + ents + b"e4:infod6:lengthi1e4:name1:t12:piece lengthi4e6:pieces20:" + bytes(20) + b"ee"
+    def pieces_doc(n):
+        return b"d4:infod6:lengthi%de4:name1:t12:piece lengthi1e6:pieces%d:" % (n, 20 * n) + bytes(20 * n) + b"ee"
+    out = [
+        (files_doc(20000 * k), "ok", "scale:files"),
+        (wide_dict(100000 * k, False), "ok", "scale:root-dict"),
+        (wide_dict(100000 * k, True), "ok", "scale:info-dict"),
+        (pieces_doc(100000 * k), "ok", "scale:pieces"),
+        (b"d4:infol" + b"i0e" * (300000 * k) + b"ee", "err", "scale:list"),
+        (b"d4:infol" + b"0:" * (400000 * k) + b"ee", "err", "scale:list-of-strings"),
+        (b"d4:info" + b"9" * (200000 * k) + b":e", "err", "scale:length-digits"),
+        (b"d4:infoi" + b"9" * (200000 * k) + b"ee", "err", "scale:int-digits"),
+        (b"d4:infod6:lengthi1e4:name%d:" % (2000000 * k) + b"n" * (2000000 * k) + b"12:piece lengthi4e6:pieces20:" + bytes(20) + b"ee", "ok", "scale:long-string"),
+        (b"d" + b"".join(b"8:%s" % key(i) + b"l" * 3 + b"e" * 3 for i in range(50000 * k)) + b"e", "err", "scale:dict-of-lists"),
+        # keys out of order only at the very end: everything before must have been accepted in linear time
+        (b"d" + b"".join(b"8:%s0:" % key(i) for i in range(100000 * k)) + b"1:a0:e", "err", "scale:late-order-error"),
+    ]
+    return [("load " + hx(d), exp, tag) for d, exp, tag in out]
+
+def run_scale(tier, budget=3.0):
+    sc = scale_cases(tier)
+    obs = C.run_impl([l for l, _, _ in sc], budget, jobs=4)
+    cases = []
+    for (line, exp, tag), ol in zip(sc, obs):
+        o = ol.partition(" | ")[2]
+        word = o.split(" ", 1)[0]
+        if word in ("timeout", "abort", "panic"):
+            ans = "DISAGREE PROPFAIL:c09-%s no answer within %.0f s on a %d-byte document (expected %s)" % (word, budget, (len(line) - 5) // 2, exp)
+        elif word != exp:
+            ans = "DISAGREE prop-ok expected %s by construction" % exp
+        else:
+            ans = "agree prop-ok scale"
+        # the request is megabytes of hex: keep a digest-sized form for the evidence, the full line for a failing replay
+        cases.append(C.Case(line, o[:200], ans, tag))
+    return cases
+
 def run(pid, tier, seed, replay=None):
     cfg = PROPS[pid]
     res = E.Result(pid, tier, seed)
@@ -206,6 +258,8 @@ def run(pid, tier, seed, replay=None):
     else:
         lines = corpus_lines(pid) + cfg["stream"](tier, seed)
     cases = C.differential([l for l, _ in lines], [t for _, t in lines])
+    if pid == "C09" and not replay:
+        cases += run_scale(tier)
     if replay:
         for c in cases:
             print("request : " + c.line[:2000]); print("impl    : " + c.obs[:2000]); print("model   : " + c.model[:2000])
